@@ -366,6 +366,24 @@ func runDoc(c caseDoc) error {
 	return nil
 }
 
+// oneKindPattern cuts the name of an action of one kind into a trailing-* pattern that matches actions of that kind
+// only ("s3:ListBucket*" covers bucket actions, "s3:GetObj*" object actions): such a pattern is an action of that kind.
+// ok is false when every cut of the drawn name also covers an action of the other kind.
+func oneKindPattern(t *rapid.T, own, other []string, label string) (string, bool) {
+	name := rapid.SampledFrom(own).Draw(t, label)
+	cut := rapid.IntRange(len("s3:")+2, len(name)).Draw(t, label+"_cut")
+	for ; cut <= len(name); cut++ {
+		clash := false
+		for _, o := range other {
+			clash = clash || strings.HasPrefix(o, name[:cut])
+		}
+		if !clash {
+			return name[:cut] + "*", true
+		}
+	}
+	return "", false
+}
+
 // validStmt: every action has a resource of its kind (wildcard actions get both kinds).
 func validStmtGen() *rapid.Generator[stmt] {
 	return rapid.Custom(func(t *rapid.T) stmt {
@@ -381,9 +399,19 @@ func validStmtGen() *rapid.Generator[stmt] {
 		case 0:
 			s.Actions = rapid.SliceOfNDistinct(rapid.SampledFrom(model.ObjectActions), 1, 3, rapid.ID[string]).Draw(t, "oa")
 			s.Resources = rapid.SliceOfNDistinct(rapid.SampledFrom(objRes), 1, 2, rapid.ID[string]).Draw(t, "or")
+			if rapid.IntRange(0, 2).Draw(t, "o_pattern") == 0 {
+				if p, ok := oneKindPattern(t, model.ObjectActions, model.BucketActions, "o_pat"); ok {
+					s.Actions = append(s.Actions, p)
+				}
+			}
 		case 1:
 			s.Actions = rapid.SliceOfNDistinct(rapid.SampledFrom(model.BucketActions), 1, 3, rapid.ID[string]).Draw(t, "ba")
 			s.Resources = []string{bucket}
+			if rapid.IntRange(0, 2).Draw(t, "b_pattern") == 0 {
+				if p, ok := oneKindPattern(t, model.BucketActions, model.ObjectActions, "b_pat"); ok {
+					s.Actions = append(s.Actions, p)
+				}
+			}
 		default:
 			s.Actions = rapid.SliceOfNDistinct(rapid.SampledFrom(append([]string{"s3:*", "s3:Get*", "s3:Put*"}, allActions()...)), 1, 4, rapid.ID[string]).Draw(t, "ma")
 			s.Resources = []string{bucket, rapid.SampledFrom(objRes).Draw(t, "mr")}
@@ -441,9 +469,19 @@ func TestC14Doc(t *testing.T) {
 			// rendered by hand below
 		case "object-action-bucket-resource":
 			v.Actions = rapid.SliceOfNDistinct(rapid.SampledFrom(model.ObjectActions), 1, 2, rapid.ID[string]).Draw(t, "oa2")
+			if rapid.IntRange(0, 2).Draw(t, "oa2_pattern") == 0 {
+				if p, ok := oneKindPattern(t, model.ObjectActions, model.BucketActions, "oa2_pat"); ok {
+					v.Actions = []string{p}
+				}
+			}
 			v.Resources = []string{bucket}
 		case "bucket-action-object-resource":
 			v.Actions = rapid.SliceOfNDistinct(rapid.SampledFrom(model.BucketActions), 1, 2, rapid.ID[string]).Draw(t, "ba2")
+			if rapid.IntRange(0, 2).Draw(t, "ba2_pattern") == 0 {
+				if p, ok := oneKindPattern(t, model.BucketActions, model.ObjectActions, "ba2_pat"); ok {
+					v.Actions = []string{p}
+				}
+			}
 			v.Resources = []string{bucket + "/*"}
 		case "mixed-action-missing-kind":
 			if rapid.Bool().Draw(t, "missing_object") {
